@@ -21,7 +21,12 @@ RULE = ('two kinds of cases. (ops) sequences of 4..45 commands over 2..3 Request
         'to what that call\'s own request/response holds. non-trivial = (ops) two objects of one class are '
         'initialised and one of them is read after the other was initialised or written; (arr) at least two '
         'applications take part in one thread\'s call tree, or two threads run. distinct by the full case')
-TRUSTED = ['modelled, not verified: CPython threading.local (an attribute set by a thread exists for that thread only), '
+TRUSTED = ['NOT in the model (oracle-level only): state of ombott that is process-wide and not kept in a ts_props store — '
+           'the class-level pre-built responses of DefaultConfig.errors_map, the module-level status-line table, the '
+           'filter cache; the arrangements compare every application with a baseline served in a forked child of a '
+           'process that has only imported ombott, and check absolute expectations (headers seen by @error handlers, '
+           'status lines of unlisted codes)',
+           'modelled, not verified: CPython threading.local (an attribute set by a thread exists for that thread only), '
            'slot descriptors, property/__getattr__ fallback order, dict insertion order — tied by the correspondence only',
            'the model treats dicts created by a thread as private to it (a dict reference cannot travel between threads '
            'inside the model); the harness names every dict after the first thread that sees it, so a shared dict shows '
@@ -88,6 +93,24 @@ def corpus():
         # a front application hands a copy of its request to a backend; the environ carries the read-only flag
         _arr(2, [_call(0, 'tA', [['see'], ['call_copy', 1, [['see'], ['hdr', 'X-B', 'tAcch']]], ['see']], readonly=True)]),
         _arr(2, [_call(1, 'tA', [['see'], ['call_copy', 0, [['see']]], ['see'], ['copy'], ['see']])], default=True),
+        # state that is process-wide and not thread-local must not carry anything from one application to another:
+        # (a) the pre-built 400 of errors_map (class-level, shared by every application): A answers a JSON client,
+        #     then B's @error(400) handler looks at B.response.headers
+        dict(_arr(2, [_call(0, 'tA', [['body_read']], method='POST', form='{"tA": bad', json_bad=True,
+                            accept='application/json'),
+                      _call(1, 'tC', [['see'], ['body_read']], method='POST', form='{"tC": bad', json_bad=True,
+                            pad='zzzzzz')], start=0, switches=[]), max_body=30),
+        dict(_arr(2, [_call(0, 'tA', [['call', _call(1, 'tB', [['body_read']], method='POST', form='f=tBf' + 'y' * 40,
+                                                       too_big=True, accept='application/json')],
+                                      ['see'], ['body_read']], method='POST', form='f=tAf' + 'y' * 40, too_big=True)]),
+             max_body=30),
+        # (b) status lines: a custom phrase for a code no table lists, then the bare number in another application
+        _arr(2, [_call(0, 'tA', [['status', '797 Tea Break'], ['see'],
+                                 ['call', _call(1, 'tB', [['status', 797], ['see']])], ['see']])]),
+        _arr(2, [_call(1, 'tA', [['status', '796 Tea Break'], ['see']]), _call(0, 'tC', [['status', 796], ['see']])],
+             default=True, start=0, switches=[]),
+        _arr(2, [_call(0, 'tA', [['status', 599], ['see'], ['call', _call(1, 'tB', [['status', '599 Custom'], ['see']])],
+                                 ['status', 599], ['see']])]),
         # redirect() works for the default application ...
         _arr(2, [_call(0, 'tA', [['see'], ['redirect', '?to=tA']])], default=True),
         # ... and (finding C10-redirect-default-app) reads the default application's request from any other one
@@ -156,7 +179,30 @@ def _gen_ops(rng, malformed):
     return _ops(cmds)
 
 
-def _gen_script(rng, tok, napps, depth, counter, busy=()):
+UNLISTED = [299, 599, 797, 798, 796, 720, 731, 742, 753, 764]
+
+
+def _body_kw(rng, tok, app, default):
+    """a request whose body cannot be read: answered from the process-wide pre-built 400 / 413 of errors_map"""
+    kind = rng.choice(['chunked_bad', 'json_bad', 'too_big'])
+    if kind == 'too_big' and default and app == 0:
+        kind = 'chunked_bad'          # the default application is built by ombott itself, without a body limit
+    # (a malformed JSON body stays below the body limit of 30 bytes, the other two go over it)
+    kw = dict(method='POST', form='{"%s": bad' % tok if kind == 'json_bad' else 'f=%sf' % tok + 'y' * 40,
+              pad='z' * rng.choice([0, 2, 9]))
+    kw[kind] = True
+    if rng.random() < 0.5:
+        kw['accept'] = 'application/json'
+    return kw
+
+
+def _end_in_body_error(script):
+    while script and script[-1][0] in ('abort', 'boom', 'gen', 'redirect', 'see'):
+        script = script[:-1]
+    return [a for a in script if a[0] != 'form_see'] + [['body_read']]
+
+
+def _gen_script(rng, tok, napps, depth, counter, busy=(), default=False):
     """`busy` = applications already serving on this thread's call stack: a handler never calls back into one of
     them (a re-entrant call re-initialises that application's request for this thread — one cell per application
     and thread — which is not what C10 is about)"""
@@ -169,14 +215,20 @@ def _gen_script(rng, tok, napps, depth, counter, busy=()):
         elif r < 0.45:
             script.append(['hdr', rng.choice(['X-A', 'X-B', 'X-C']), tok + 'h%d' % rng.randrange(3)])
         elif r < 0.5:
-            script.append(['status', rng.choice([201, 202, 404, 418])])
+            code = rng.choice([201, 202, 404, 418] + UNLISTED)
+            script.append(['status', code if rng.random() < 0.6 else '%d %s phrase' % (code, tok)])
         elif r < 0.56:
             script.append(['cookie', rng.choice(['k', 'm']), tok + 'k'])
         elif r < 0.76 and depth < 2 and free:
             counter[0] += 1
             sub = tok + 'n%d' % counter[0]
             j = rng.choice(free)
-            script.append(['call', _call(j, sub, _gen_script(rng, sub, napps, depth + 1, counter, tuple(busy) + (j,)))])
+            sub_script = _gen_script(rng, sub, napps, depth + 1, counter, tuple(busy) + (j,), default)
+            kw = {}
+            if rng.random() < 0.25:
+                kw = _body_kw(rng, sub, j, default)
+                sub_script = _end_in_body_error(sub_script)
+            script.append(['call', _call(j, sub, sub_script, **kw)])
             script.append(['see'])
         elif r < 0.80 and depth < 2 and free:
             # a copy of this request handed to another application (nested call on the copy's environ)
@@ -208,6 +260,7 @@ def _gen_script(rng, tok, napps, depth, counter, busy=()):
 def _gen_arr(rng):
     napps = rng.choice([2, 2, 3])
     nthreads = rng.choice([1, 1, 2, 2, 3])
+    default = rng.random() < 0.5
     calls = []
     for i in range(nthreads):
         if nthreads > 1 and rng.random() < 0.12:
@@ -222,12 +275,16 @@ def _gen_arr(rng):
         if rng.random() < 0.3:
             kw['readonly'] = True         # the (legal) 'ombott.request.readonly' flag in the environ
         j = rng.randrange(napps)
-        calls.append(_call(j, tok, _gen_script(rng, tok, napps, 0, [0], (j,)), **kw))
+        script = _gen_script(rng, tok, napps, 0, [0], (j,), default)
+        if rng.random() < 0.2:
+            kw = _body_kw(rng, tok, j, default)
+            script = _end_in_body_error(script)
+        calls.append(_call(j, tok, script, **kw))
     switches = []
     if nthreads > 1:
         for _ in range(rng.randrange(0, 4)):
             switches.append([rng.randrange(1, 1000), rng.randrange(nthreads)])
-    return _arr(napps, calls, default=rng.random() < 0.5, start=rng.randrange(nthreads), switches=switches)
+    return dict(_arr(napps, calls, default=default, start=rng.randrange(nthreads), switches=switches), max_body=30)
 
 
 def gen(rng, n):
@@ -399,7 +456,7 @@ def classify(case, obs):
             if a[0] == 'call':
                 kinds.add('nested')
                 walk(a[1], depth + 1)
-            elif a[0] in ('copy', 'new_app', 'abort', 'boom', 'gen', 'call_copy', 'redirect'):
+            elif a[0] in ('copy', 'new_app', 'abort', 'boom', 'gen', 'call_copy', 'redirect', 'body_read'):
                 kinds.add(a[0])
         if c.get('readonly'):
             kinds.add('readonly')
